@@ -1,2 +1,2 @@
-import NipyVerif.Model.C02
+import NipyVerif.Model.C02Run
 def main : IO Unit := NipyVerif.driverLoop NipyVerif.C02.run
